@@ -221,7 +221,7 @@ func (g *G) plainStmt(sc *scope, depth int) []string {
 }
 
 func (g *G) tryPlain(sc *scope, depth int) []string {
-	k := g.pick("stmtkind", 34)
+	k := g.pick("stmtkind", 36)
 	switch k {
 	case 0, 1, 2:
 		return g.defineStmt(sc, depth)
@@ -308,6 +308,10 @@ func (g *G) tryPlain(sc *scope, depth int) []string {
 		return g.emptyWindowStmt(sc)
 	case 33:
 		return g.stringBytesCopyStmt(sc)
+	case 34:
+		return g.ptrFieldPathStmt(sc, depth)
+	case 35:
+		return g.chainedSliceStmt(sc)
 	case 23:
 		if !g.cfg.NoBareBlocks && depth > 0 {
 			g.label("bare-block")
@@ -1161,6 +1165,122 @@ func (g *G) nestedFieldStore(sc *scope, depth int) []string {
 		return nil
 	}
 	return alts[g.pick("nestedalt", len(alts))]()
+}
+
+// ptrFieldPathStmt: an assignment target / operand of & whose path goes THROUGH a pointer-typed
+// field: n.leaf.x = v, n.leaf.x += v, p := &n.leaf.y (seeded change C01-29: the location of the
+// pointer slot instead of the pointer stored in it). Self-contained: the leaf is freshly allocated,
+// so the path is never nil.
+func (g *G) ptrFieldPathStmt(sc *scope, depth int) []string {
+	type cand struct {
+		outer *StructDef
+		f     Field
+		inner Field
+	}
+	var cands []cand
+	for _, sd := range g.prog.Structs {
+		for _, f := range sd.Fields {
+			if f.T.K != KPtr || f.T.Elem.K != KStruct {
+				continue
+			}
+			for _, f2 := range f.T.Elem.S.Fields {
+				if f2.T.IsInt() {
+					cands = append(cands, cand{sd, f, f2})
+				}
+			}
+		}
+	}
+	if len(cands) == 0 {
+		return nil
+	}
+	c := cands[g.pick("pfcand", len(cands))]
+	g.ctr++
+	n := g.ctr
+	leaf, node, r := fmt.Sprintf("pl%d", n), fmt.Sprintf("pn%d", n), fmt.Sprintf("pr%d", n)
+	g.fn.names[leaf], g.fn.names[node], g.fn.names[r] = true, true, true
+	innerTy := &Ty{K: KStruct, S: c.f.T.Elem.S}
+	outerTy := &Ty{K: KStruct, S: c.outer}
+	out := []string{leaf + " := &" + g.structLit(sc, innerTy, 0)}
+	path := ""
+	switch g.pick("pfnode", 3) {
+	case 0: // node held through a pointer
+		out = append(out, fmt.Sprintf("%s := &%s{%s: %s}", node, c.outer.Name, c.f.Name, leaf))
+		g.declare(sc, &Var{Name: node, T: PtrTo(outerTy), NonNil: true, Used: true})
+	case 1: // node is a struct variable
+		out = append(out, fmt.Sprintf("var %s %s = %s{%s: %s}", node, c.outer.Name, c.outer.Name, c.f.Name, leaf))
+		g.declare(sc, &Var{Name: node, T: outerTy, Mutable: true, Used: true})
+	default: // node is a := struct value (read-only path to the pointer)
+		out = append(out, fmt.Sprintf("%s := %s{%s: %s}", node, c.outer.Name, c.f.Name, leaf))
+		g.declare(sc, &Var{Name: node, T: outerTy, Used: true})
+	}
+	g.declare(sc, &Var{Name: leaf, T: c.f.T, NonNil: true, Used: true})
+	path = fmt.Sprintf("%s.%s.%s", node, c.f.Name, c.inner.Name)
+	v := g.expr(sc, c.inner.T, min(depth, 1))
+	switch g.pick("pfform", 3) {
+	case 0:
+		g.label("store-through-pointer-field")
+		out = append(out, fmt.Sprintf("%s = %s", path, v))
+	case 1:
+		g.label("opassign-through-pointer-field")
+		out = append(out, fmt.Sprintf("%s += %s", path, v))
+	default:
+		g.label("address-through-pointer-field")
+		q := fmt.Sprintf("pq%d", n)
+		g.fn.names[q] = true
+		out = append(out, fmt.Sprintf("%s := &%s", q, path), fmt.Sprintf("*%s = %s", q, v))
+		g.declare(sc, &Var{Name: q, T: PtrTo(c.inner.T), NonNil: true, Used: true})
+	}
+	out = append(out, fmt.Sprintf("%s := uint64(%s.%s)", r, leaf, c.inner.Name))
+	g.declare(sc, &Var{Name: r, T: TU64})
+	return out
+}
+
+// chainedSliceStmt: a slice expression applied to a slice expression, s[:n][lo:], s[a:][:m],
+// s[a:b][c:d]: omitted bounds default to the bounds of the INNER window (seeded change C01-31).
+func (g *G) chainedSliceStmt(sc *scope) []string {
+	vs := g.varsOf(sc, func(v *Var) bool { return v.T != nil && v.T.K == KSlice && v.MinLen >= 3 && !v.Big })
+	g.ctr++
+	n := g.ctr
+	var out []string
+	var src string
+	var elem *Ty
+	ln := 0
+	if len(vs) > 0 && g.chance("csexisting", 50) {
+		v := vs[g.pick("csvar", len(vs))]
+		src, elem, ln = use(v), v.T.Elem, v.MinLen
+	} else {
+		src = fmt.Sprintf("cs%d", n)
+		g.fn.names[src] = true
+		elem, ln = TU64, 4+g.pick("cslen", 4)
+		out = append(out, fmt.Sprintf("%s := make([]uint64, %d)", src, ln))
+		g.declare(sc, &Var{Name: src, T: SliceOf(TU64), MinLen: ln, Used: true, CapKnown: true})
+	}
+	if ln > 8 {
+		ln = 8
+	}
+	w, r := fmt.Sprintf("cw%d", n), fmt.Sprintf("cr%d", n)
+	g.fn.names[w], g.fn.names[r] = true, true
+	hi := 2 + g.pick("cshi", ln-1) // inner upper bound in [2, ln]
+	lo := g.pick("cslo", hi)       // outer lower bound in [0, hi)
+	var e string
+	switch g.pick("csform", 4) {
+	case 0:
+		g.label("chained-slice-prefix-then-suffix")
+		e = fmt.Sprintf("%s[:%d][%d:]", src, hi, lo)
+	case 1:
+		g.label("chained-slice-suffix-then-prefix")
+		e = fmt.Sprintf("%s[%d:][:%d]", src, lo, hi-lo)
+	case 2:
+		g.label("chained-slice-window-then-suffix")
+		e = fmt.Sprintf("%s[%d:%d][%d:]", src, lo, hi, (hi-lo)/2)
+	default:
+		g.label("chained-slice-prefix-then-prefix")
+		e = fmt.Sprintf("%s[:%d][:%d]", src, hi, lo)
+	}
+	out = append(out, w+" := "+e, fmt.Sprintf("%s := uint64(len(%s))", r, w))
+	g.declare(sc, &Var{Name: w, T: SliceOf(elem), MinLen: 0})
+	g.declare(sc, &Var{Name: r, T: TU64})
+	return out
 }
 
 // castLit gives an integer literal argument of a generic call its type
